@@ -98,7 +98,9 @@ def dft2(f, alpha, shape=None, shift=(0, 0), offset=(0, 0), unitary=True, out=No
 
     # now calculate the answer, without reallocating memory
     if unitary:
-        np.multiply(F, np.sqrt(np.abs(alpha_row * alpha_col)), out=F)
+        # formed in double precision from the two factors: the product of the
+        # intervals can leave the range of the type they are held in
+        np.multiply(F, np.sqrt(np.abs(float(alpha_row))) * np.sqrt(np.abs(float(alpha_col))), out=F)
 
     return F
 
